@@ -99,6 +99,13 @@ Theorem C14_sqrt_price_to_tick_bucket : forall t s st st1, MinInitializedTick <=
 Proof. exact bucket_main. Qed.
 Print Assumptions C14_sqrt_price_to_tick_bucket.
 
+(* the same for the bucket of MinCurrentTick = MinInitializedTick - 1, whose lower edge is a 36-digit root *)
+Theorem C14_sqrt_price_to_tick_bucket_min_current : forall s st st1,
+  tick_to_sqrt_price MinCurrentTick = Ok st -> tick_to_sqrt_price MinInitializedTick = Ok st1 -> st <= s < st1 ->
+  calculate_sqrt_price_to_tick s = Ok MinCurrentTick.
+Proof. exact bucket_min_current_main. Qed.
+Print Assumptions C14_sqrt_price_to_tick_bucket_min_current.
+
 (* the top edge is inclusive: the sqrt price of MaxTick maps to MaxTick *)
 Theorem C14_sqrt_price_to_tick_top_edge : forall sm,
   tick_to_sqrt_price MaxTick = Ok sm -> calculate_sqrt_price_to_tick sm = Ok MaxTick.
@@ -131,6 +138,13 @@ Proof.
   split; [exact sqrt_of_min_pos|apply rejects_main].
 Qed.
 Print Assumptions C14_sqrt_price_rejects.
+
+(* out-of-range prices are rejected by CalculatePriceToTick *)
+Theorem C14_price_to_tick_rejects : forall p,
+  (p < 0 -> calculate_price_to_tick p = Err ENegPrice) /\
+  (0 <= p < MinSpotPriceV2 \/ MaxSpotPriceBigDec < p -> calculate_price_to_tick p = Err EPriceBound).
+Proof. exact price_to_tick_rejects. Qed.
+Print Assumptions C14_price_to_tick_rejects.
 
 (* FULL rejection claim for the low end (a sqrt price below the bucket of MinCurrentTick is rejected, i.e. every
    returned tick is at least MinCurrentTick) is FALSE of the faithful model and of the code (known finding C14-F1):
